@@ -286,8 +286,10 @@ theorem quiescent_record_matches (t : Ty) (srv : State) (names : List String) (n
   · rw [hnack] at h1; cases h1
   · exact h1
 
-/-- No schedule whatsoever crashes the server (every request handled is total). -/
-theorem run_total (t : Ty) (y : Sys) (steps : List Step) : ∃ y', run t y steps = y' := ⟨_, rfl⟩
+/-- No request the closed loop ever hands to the server crashes it: the `.crash` arm of `step` is
+    dead code (crash freedom itself is `never_crashes`, for every state and request). -/
+theorem serverRecv_never_crashes (t : Ty) (y : Sys) (m : Req) (rest : List Req) (_ : y.c2s = m :: rest) :
+    shouldRespond y.srv m ≠ .crash := never_crashes _ _
 
 /-- Non-vacuity: a concrete exchange (reconnecting client with a retained nonce `old`, subscribes
     to `a`, gets a response, ACKs, then adds `b`, gets a response, ACKs) reaches a quiescent state
